@@ -6,6 +6,62 @@ ROOT = "/verif"
 
 # id -> dict(engine, category, text, note, technique, design_ref)
 CHECKS = {
+    "C01": dict(
+        engine="comp",
+        category="exploration",
+        technique="model-based two-endpoint property testing at frame level: real DataStreams + FlowController pairs joined by a harness-owned frame network with generated loss / reorder / duplicate / split / delayed-ack schedules; exhaustive fate enumeration for short streams",
+        text="Two real endpoints (client and server DataStreams with flow controllers, constructed and dispatched as the connection does) exchange packets produced by the real try_load_data_into into buffers of generated capacity and re-parsed with FrameReader; the schedule drops, holds, reorders, duplicates and re-cuts STREAM frames, reports spurious and repeated losses and late acks. Oracle per step: wire bytes equal what was written, reads are byte-exact prefixes, EOF only after FIN and every byte, resets carry the sender's code; at quiescence of a fair suffix every written byte and FIN is readable, flush/shutdown completed, no task is parked without a pending wake-up. All fate assignments over the first-transmission packets of two short streams x delivery orders exhaustively (3k quick / 87k thorough) + 76k / 1.9M random histories up to 1 MB per stream.",
+        note="Frame network, ack/loss feedback (mirrors AckDataSpace/DataTracker) and application tasks are harness code. No crypto or timers at this level (the full stack is C02). Flow-control windows generous (C11 narrows them); 0-RTT is C09.",
+        design_ref="DESIGN.md §2.2, §3 C01",
+    ),
+    "C03": dict(
+        engine="comp",
+        category="exploration",
+        technique="differential property testing of the three decoders against an independent RFC 9000/9221 reference decoder on systematic and random mutations of valid encodings and on raw random bytes; same oracle inside three libFuzzer targets (thorough tier)",
+        text="Datagram entry (PacketReader for every dcid length 0..20, forward/STUN sniffing), payload entry (FrameReader in Initial / 0-RTT / Handshake / 1-RTT until first error, exactly like read_plain_packet) and transport-parameter entry (both roles, remembered form) are fed every single systematic mutation of a seed list of valid encodings exhaustively (35k cases) plus 800k (quick) / 20M (thorough) random mutations and random bytes. Each step is compared with the reference: accept vs reject, bytes consumed (always progresses, never beyond the input), returned data slices inside the input, canonical re-encoding (mis-framing detector), and the connection error kind prescribed (frame-encoding / protocol-violation / transport-parameter); no panic. Thorough additionally runs the three cargo-fuzz targets (bin/fuzz-c03) with the same oracle.",
+        note="Reference decoder hand-written from the RFCs and the extension frames' own encoders. Duplicate transport parameters tolerated (RFC: SHOULD). The connection-level mapping in qconnection::space::read_plain_packet is mirrored in the harness (qconnection is not linked here; it runs for real in C02).",
+        design_ref="DESIGN.md §2.3, §3 C03",
+    ),
+    "C11": dict(
+        engine="comp",
+        category="exploration",
+        technique="model-based property testing of sender and receiver flow control on real DataStreams/FlowController endpoints with asymmetric generated transport parameters; complete enumeration of short receiver histories",
+        text="The six initial flow-control parameters of both sides are drawn independently (incl. 0 and unequal uni/bidi). Sender stages: every emitted STREAM frame ends within the limit in force for that stream kind as the peer sees it, the sum of highest offsets stays within MAX_DATA, each byte is charged once (retransmissions free), unused credit is returned, DATA_BLOCKED/RESET values are right. Receiver stages: a scripted hostile peer places STREAM / FIN / RESET_STREAM at, one over and far over stream and connection limits: FLOW_CONTROL_ERROR iff over a limit; advertised MAX_DATA / MAX_STREAM_DATA never decrease. Pair stage: two real endpoints, any receive error is a violation. Every receiver history of <=3 ops over a 66-frame alphabet exhaustively (638k quick / 7.5M thorough) + 100k / 6.3M random histories.",
+        note="Frame dispatch and ack/loss feedback mirror qconnection's glue in harness code. Liveness only as two weak quiescence checks. 0-RTT window revision is C09/C12.",
+        design_ref="DESIGN.md §2.2, §3 C11",
+    ),
+    "C12": dict(
+        engine="comp",
+        category="exploration",
+        technique="model-based property testing of DataStreams against an RFC 9000 section 2-4 stream-id/state reference model; complete enumeration of all 2-op histories over a 105-op alphabet",
+        text="Both roles, both concurrency strategies, stream-count limits 0..8 / 2^60: local opens, MAX_STREAMS, STREAMS_BLOCKED and peer STREAM / RESET_STREAM / STOP_SENDING / MAX_STREAM_DATA / STREAM_DATA_BLOCKED on all four stream kinds with indices around the limits and offsets around the final size. Oracle: opens never exceed the peer's limit and use consecutive ids; index >= advertised count gets STREAM_LIMIT, wrong direction STREAM_STATE, final-size contradictions FINAL_SIZE (ignore-or-error once the stream is closed); every implicitly opened stream is accepted exactly once, in order, with the right kind. 454k cases exhaustively (quick; 9.7M thorough) + 120k / 4M random histories incl. 0-RTT limit revision.",
+        note="Reference model hand-written from RFC 9000. Offsets stay below the stream window so C11's errors never compete. Connection-level reaction is exercised by C02/C17.",
+        design_ref="DESIGN.md §3 C12",
+    ),
+    "C15": dict(
+        engine="e2e",
+        category="exploration",
+        technique="history testing of the anti-amplification budget (proptest) plus end-to-end wire-tap accounting: real dquic server over simnet with a client whose address stays unvalidated",
+        text="Unit stage: 60k (5M) histories of receive / budgeted send (balance -> Constraints::constrain -> commit -> on_sent, optionally overdrawn by padding) / grant / abort on the real AntiAmplifier: the allowance never exceeds 3x received minus sent and never wraps. End-to-end stage: 300 (30k) runs of the real server behind a network that drops the client's datagrams from index 1..3 on (forever, or for a short window), with generated latency, MSS and max_segments; the wire tap samples bytes received from / sent to the client address at every server send until a client Handshake/1-RTT packet is delivered: sent <= 3 x received; with a finite window the transfer must resume and complete.",
+        note="Address validation is assumed to happen no earlier than delivery of the first client datagram carrying a Handshake or 1-RTT packet (no Retry/tokens in these runs). Lock-free interleavings inside AntiAmplifier are not explored.",
+        design_ref="DESIGN.md §3 C15",
+    ),
+    "C16": dict(
+        engine="comp",
+        category="exploration",
+        technique="exhaustive enumeration (iterative deepening) and random generation of waiter/notifier interleavings at lock-protected-operation granularity, single-threaded with counting wakers",
+        text="16 hand-written waiter/notifier protocols (SendWaker/SendWakers incl. the external condition check as its own step, AsyncDeque, Receiving, ArcKeys / 0-RTT / 1-RTT keys, Parameters, LocalStreamIds, CidCell, Wakers fan-out, crypto reader/writer, DatagramReader, stream Reader/Writer, accept and open stream) are wrapped as step machines; every schedule up to the per-protocol bound (<=3 polls per waiter, <=3 actions per notifier; 3.7M schedules quick, 60M thorough) plus random schedules up to 40/80 steps. Oracle at quiescence: no waiter is Pending with a never-woken waker while a re-poll would make progress; after close/fail every sleeper was woken.",
+        note="Granularity is the property's own (individual lock-protected operations); interleavings inside one lock-free operation and real thread schedules are out of reach of this technique. qconnection-level protocols (AntiAmplifier::balance, Path buffers) are not linked into this harness.",
+        design_ref="DESIGN.md §3 C16",
+    ),
+    "C19": dict(
+        engine="comp",
+        category="exploration",
+        technique="model-based property testing of DatagramFlow (writer / packet loading / reader) with complete enumeration of sizes around every limit and packet-space boundary",
+        text="Send is refused iff 1+len exceeds the peer limit; every load writes nothing or padding plus exactly one DATAGRAM frame whose payload (after FrameReader) is the queue head, unmerged and unsplit, no-length form only as last frame; the receiver accepts iff the frame fits the local maximum (else PROTOCOL_VIOLATION) and yields payloads unchanged and in order, waking parked readers. Limits {0..5, 64..67, 16385..16388} x lengths around the limit x packet room around the frame size x neighbouring frames exhaustively (7k) + 500k (25M thorough) random histories with loss.",
+        note="Component level. The clause 'an accepted datagram is actually put on the wire' needs the connection: source reading shows DatagramFlow::try_load_data_into has no caller in qconnection (burst.rs has `// TODO: datagram` in both packet assemblers), see DESIGN.md findings; it is asserted end-to-end by the simnet datagram stage when built.",
+        design_ref="DESIGN.md §3 C19",
+    ),
     "C09": dict(
         engine="comp",
         category="exploration",
